@@ -353,6 +353,9 @@ def _load():
     reg('bootstraps_from_dd', lambda dd, chunk, nboot, pop_ids, proj, polarized=True:
         Misc.bootstraps_from_dd_chunks(Misc.fragment_data_dict(dd, chunk), nboot, pop_ids, proj, polarized=polarized), seed_rng=99, group='datadict')
     reg('LP.lowpass_call', _lowpass_call, group='lowpass')
+    reg('LP.compute_cov_dist', _cov_dist, group='lowpass')
+    reg('LP.lowpass_from_dd', _lowpass_from_dd, group='lowpass')
+    reg('optimize_grid', _optimize_grid, group='opthelp')
     # ---- demes
     reg('from_demes', _from_demes, group='demes')
     # ---- interference (E1, E4): results never compared
@@ -382,8 +385,31 @@ def _mk_data_dict(seed, nsnp, pops, nchrom, nconfig=4, chroms=('chr1', 'chr2', '
         c = configs[rs.randint(0, nconfig)]
         og = ['A', 'A', 'A', 'T', '-'][rs.randint(0, 5)]
         dd['%s_%d' % (chroms[rs.randint(0, len(chroms))], 100 + 37 * i)] = {'segregating': ('A', 'T'), 'calls': dict(c), 'outgroup_allele': og,
-                                                                           'context': 'CAG', 'outgroup_context': 'CAG'}
+                                                                           'context': 'CAG', 'outgroup_context': 'CAG',
+                                                                           'coverage': {pop: rs.poisson(2 + 3 * pi, size=max(n // 2, 1)) for pi, (pop, n) in enumerate(zip(pops, nchrom))}}
     return dd
+
+
+def _cov_dist(dd, pop_ids):
+    from dadi.LowPass import LowPass as LP
+    r = LP.compute_cov_dist(dd, pop_ids)
+    return [[k, v] for k, v in r.items()]          # order of the returned dictionary matters to its consumers
+
+
+def _lowpass_from_dd(model_fn, params, nsub, pts, dd, pop_ids, nseq):
+    """coverage distribution computed from the data dictionary, then the low-pass corrected model (analytic branch)"""
+    from dadi.LowPass import LowPass as LP
+    cov = LP.compute_cov_dist(dd, pop_ids)
+    f = LP.make_low_pass_func_GATK_multisample(model_fn, cov, pop_ids, list(nseq), list(nsub), sim_threshold=1.0)
+    return f(params, nsub, pts)
+
+
+def _optimize_grid(data, model_fn, pts, grid, **kw):
+    import dadi, io, contextlib
+    g = tuple(slice(a, b, c) for a, b, c in grid)
+    buf = io.StringIO()
+    with contextlib.redirect_stdout(buf):
+        return dadi.Inference.optimize_grid(data, model_fn, pts, g, **kw)
 
 
 def _lowpass_call(model_fn, params, nsub, pts, cov_rows, nseq, Fx=None):
